@@ -107,6 +107,12 @@ type Check struct {
 	// After runs once after a clean in-process batch (e.g. the race-detector phase in child
 	// processes). It may add coverage keys and report violations found outside the process.
 	After func(opt Options, cov map[string]interface{}) ([]ExtViolation, error)
+	// HangIsViolation: a run that does not terminate (confirmed twice in fresh processes) violates
+	// the property itself (it promises that requests are served); otherwise a confirmed hang is
+	// reported as infrastructure trouble (exit 2) with a replay file.
+	HangIsViolation bool
+	// HangSeconds overrides the per-run limit (default 30) after which a run is probed for a hang.
+	HangSeconds int
 	// AfterFirst runs the After phase BEFORE the in-process batch (C19: hidden shared state in
 	// the library would crash a multi-worker batch with a Go fatal error before it could be
 	// reported; the child processes report it as a data race).
@@ -248,6 +254,7 @@ type ReplayFile struct {
 	TraceHash string       `json:"trace_hash"`
 	Shrunk    bool         `json:"shrunk"`
 	OrigLen   int          `json:"orig_tape_len"`
+	HangSecs  int          `json:"hang_seconds,omitempty"` // class "hang": the run did not end within this many seconds
 }
 
 // ---------------------------------------------------------------------------------------
@@ -290,6 +297,8 @@ type shrinker struct {
 	deadline time.Time
 	best    []uint64
 	bestBlocks []tape.Block
+	// hangSecs > 0: the violation is a hang; candidates are executed in child processes that give up after hangSecs
+	hangSecs int
 }
 
 func (s *shrinker) try(vals []uint64) bool {
@@ -297,6 +306,21 @@ func (s *shrinker) try(vals []uint64) bool {
 		return false
 	}
 	s.execs++
+	if s.hangSecs > 0 {
+		used, blocks, hung := probeTape(s.ch, s.tier, vals, avoidList(s.avoid), s.hangSecs)
+		if !hung {
+			return false
+		}
+		for len(used) > 0 && used[len(used)-1] == 0 {
+			used = used[:len(used)-1]
+		}
+		if less(used, s.best) {
+			s.best = used
+			s.bestBlocks = blocks
+			return true
+		}
+		return false
+	}
 	t := tape.NewReplay(vals)
 	c := &Ctx{T: t, Tier: s.tier, Avoid: s.avoid}
 	out, infra := runOnce(s.ch, c)
@@ -543,9 +567,16 @@ func RunBatch(opt Options) int {
 	knownWhat := map[string]*Finding{}
 	stoppedEarly := false
 
+	hangSecs := ch.HangSeconds
+	if hangSecs == 0 {
+		hangSecs = 30
+	}
+	slotIdx := make([]uint64, workers)
+	slotStart := make([]int64, workers)
 	var wg sync.WaitGroup
 	for w := 0; w < workers; w++ {
 		wg.Add(1)
+		w := w
 		go func() {
 			defer wg.Done()
 			for atomic.LoadInt32(&stop) == 0 {
@@ -562,7 +593,10 @@ func RunBatch(opt Options) int {
 				}
 				t := newRunTape(ch, opt.Tier, opt.Seed, i)
 				c := &Ctx{T: t, Tier: opt.Tier, RunIndex: i, Avoid: avoid, WantScenario: i < 3}
+				atomic.StoreUint64(&slotIdx[w], i)
+				atomic.StoreInt64(&slotStart[w], time.Now().UnixNano())
 				out, infra := runOnce(ch, c)
+				atomic.StoreInt64(&slotStart[w], 0)
 				if infra != nil {
 					infraErr.Store(infra)
 					atomic.StoreInt32(&stop, 1)
@@ -623,7 +657,41 @@ func RunBatch(opt Options) int {
 			}
 		}()
 	}
-	wg.Wait()
+	// a run that does not come back: probe it in fresh processes, then report (the stuck worker
+	// cannot be stopped; the process ends with the report)
+	doneCh := make(chan struct{})
+	go func() { wg.Wait(); close(doneCh) }()
+	hangCh := make(chan *hangResult, 1)
+	go func() {
+		for {
+			select {
+			case <-doneCh:
+				return
+			case <-time.After(time.Second):
+			}
+			now := time.Now().UnixNano()
+			for w := range slotStart {
+				st := atomic.LoadInt64(&slotStart[w])
+				if st != 0 && now-st > int64(hangSecs)*int64(time.Second) {
+					idx := atomic.LoadUint64(&slotIdx[w])
+					fmt.Fprintf(os.Stderr, "run %d of %s has not ended after %ds; probing it in fresh processes\n", idx, ch.ID, hangSecs)
+					hangCh <- confirmHang(ch, opt, idx, nil, hangSecs)
+					return
+				}
+			}
+		}
+	}()
+	var hangV *hangResult
+	select {
+	case <-doneCh:
+	case h := <-hangCh:
+		atomic.StoreInt32(&stop, 1)
+		if !h.confirmed {
+			fmt.Fprintf(os.Stderr, "INFRASTRUCTURE ERROR: run %d of %s stalled for %ds in the batch but %s\n", h.idx, ch.ID, hangSecs, h.why)
+			return 2
+		}
+		hangV = h
+	}
 	if e := infraErr.Load(); e != nil {
 		fmt.Fprintf(os.Stderr, "INFRASTRUCTURE ERROR: %v\n", e)
 		return 2
@@ -632,7 +700,7 @@ func RunBatch(opt Options) int {
 	// determinism resample: re-execute sampled runs and compare trace hashes
 	detOK := true
 	detN := 0
-	if len(unknown) == 0 {
+	if len(unknown) == 0 && hangV == nil {
 		var idxs []uint64
 		for i := range a.hashes {
 			idxs = append(idxs, i)
@@ -660,7 +728,7 @@ func RunBatch(opt Options) int {
 	}
 
 	// phase run outside this process (race detector children)
-	if len(unknown) == 0 && ch.After != nil && !ch.AfterFirst {
+	if len(unknown) == 0 && hangV == nil && ch.After != nil && !ch.AfterFirst {
 		var err error
 		ext, err = ch.After(opt, extCov)
 		if err != nil {
@@ -682,7 +750,40 @@ func RunBatch(opt Options) int {
 
 	exit := 0
 	var replayPaths []string
-	if len(unknown) > 0 {
+	if hangV != nil {
+		rf := &ReplayFile{Property: ch.ID, Seed: opt.Seed, RunIndex: hangV.idx, Tier: opt.Tier, Class: "hang", HangSecs: hangSecs,
+			Message: fmt.Sprintf("run %d did not end within %d s, in the batch and in two fresh processes; the tape is what had been drawn when the last probe gave up (not minimised: every attempt costs the full limit)", hangV.idx, hangSecs),
+			Tape: hangV.tape, Blocks: hangV.blocks, OrigLen: len(hangV.tape), Avoid: avoidList(avoid)}
+		if !opt.NoShrink && len(hangV.tape) > 0 {
+			// minimise with a short limit per attempt (ordinary runs take milliseconds), then confirm
+			// the result once more under the full limit
+			s := &shrinker{ch: ch, tier: opt.Tier, avoid: avoid, maxExec: 400, deadline: time.Now().Add(150 * time.Second), best: hangV.tape, bestBlocks: hangV.blocks, hangSecs: 3}
+			s.run()
+			if len(s.best) < len(hangV.tape) {
+				if _, _, hung := probeTape(ch, opt.Tier, s.best, avoidList(avoid), hangSecs); hung {
+					rf.Tape, rf.Blocks, rf.Shrunk = s.best, s.bestBlocks, true
+					rf.Message = fmt.Sprintf("run %d did not end within %d s, in the batch and in two fresh processes; the tape was minimised from %d to %d draws with a %d s limit per attempt and confirmed under the full limit", hangV.idx, hangSecs, len(hangV.tape), len(s.best), s.hangSecs)
+				}
+			}
+		}
+		dir := filepath.Join(opt.OutDir, "replays", ch.ID)
+		os.MkdirAll(dir, 0755)
+		p := filepath.Join(dir, fmt.Sprintf("%d-%d-hang.json", opt.Seed, hangV.idx))
+		b, _ := json.MarshalIndent(rf, "", " ")
+		if err := os.WriteFile(p, b, 0644); err != nil {
+			fmt.Fprintf(os.Stderr, "cannot write replay: %v\n", err)
+			return 2
+		}
+		if !ch.HangIsViolation {
+			fmt.Fprintf(os.Stderr, "INFRASTRUCTURE ERROR: run %d of %s does not terminate (confirmed in fresh processes); %s does not speak about termination, so this is not reported as its violation. replay=%s\n", hangV.idx, ch.ID, ch.ID, p)
+			return 2
+		}
+		fmt.Printf("violation class=hang run=%d: %s\n", hangV.idx, rf.Message)
+		fmt.Printf("VIOLATION property=%s replay=%s\n", ch.ID, p)
+		replayPaths = append(replayPaths, p)
+		exit = 1
+		unknown = append(unknown, vio{idx: hangV.idx})
+	} else if len(unknown) > 0 {
 		sort.Slice(unknown, func(i, j int) bool { return unknown[i].idx < unknown[j].idx })
 		v := unknown[0]
 		rf := &ReplayFile{Property: ch.ID, Seed: opt.Seed, RunIndex: v.idx, Tier: opt.Tier, Class: v.out.V.Class,
@@ -860,6 +961,20 @@ func Replay(path string, verbose bool) int {
 		fmt.Fprintf(os.Stderr, "race replay failed with exit code %d:\n%s\n", code, firstLines(string(outb), 40))
 		return 2
 	}
+	if rf.Class == "hang" {
+		secs := rf.HangSecs
+		if secs == 0 {
+			secs = 60
+		}
+		h := confirmHang(ch, Options{ID: rf.Property, Tier: rf.Tier, Seed: rf.Seed}, rf.RunIndex, &rf, secs)
+		if h.confirmed {
+			fmt.Printf("violation class=hang: the replayed run did not end within %d s (twice, in fresh processes)\n", secs)
+			fmt.Printf("VIOLATION property=%s replay=%s\n", rf.Property, path)
+			return 1
+		}
+		fmt.Printf("replay of %s did not reproduce: %s\n", path, h.why)
+		return 3
+	}
 	avoid := map[string]bool{}
 	for _, k := range rf.Avoid {
 		avoid[k] = true
@@ -957,4 +1072,124 @@ func Hashes(id, tier string, seed uint64, n int, workers int) int {
 		fmt.Println(l)
 	}
 	return 0
+}
+
+// ---------------------------------------------------------------------------------------
+// runs that do not terminate
+
+type hangResult struct {
+	idx       uint64
+	confirmed bool
+	why       string
+	tape      []uint64
+	blocks    []tape.Block
+}
+
+// HangProbe executes one run (seeded, or from a replay file's tape) and gives up after secs
+// seconds: exit code 77 and the tape drawn so far on stdout. Child-process side of confirmHang.
+func HangProbe(id, tier string, seed, idx uint64, replayPath string, secs int) int {
+	ch := Registry[id]
+	if ch == nil {
+		return 2
+	}
+	ff, _ := LoadFindings(filepath.Join(verifDir(), "known_findings.json"))
+	avoid := map[string]bool{}
+	if ff != nil {
+		avoid = ff.AvoidSet(id)
+	}
+	t := newRunTape(ch, tier, seed, idx)
+	if replayPath != "" {
+		b, err := os.ReadFile(replayPath)
+		if err != nil {
+			return 2
+		}
+		var rf ReplayFile
+		if json.Unmarshal(b, &rf) != nil {
+			return 2
+		}
+		t = tape.NewReplay(rf.Tape)
+		avoid = map[string]bool{}
+		for _, k := range rf.Avoid {
+			avoid[k] = true
+		}
+	}
+	done := make(chan error, 1)
+	go func() {
+		_, infra := runOnce(ch, &Ctx{T: t, Tier: tier, RunIndex: idx, Avoid: avoid})
+		done <- infra
+	}()
+	select {
+	case infra := <-done:
+		if infra != nil {
+			fmt.Fprintf(os.Stderr, "INFRASTRUCTURE ERROR: %v\n", infra)
+			return 2
+		}
+		return 0
+	case <-time.After(time.Duration(secs) * time.Second):
+		// the run is stuck inside the library; it does not touch the tape any more
+		b, _ := json.Marshal(map[string]interface{}{"tape": t.Used(), "blocks": t.Blocks()})
+		fmt.Printf("%s\n", b)
+		return 77
+	}
+}
+
+// confirmHang probes run idx (or the tape of replay file rf) twice in fresh processes.
+func confirmHang(ch *Check, opt Options, idx uint64, rf *ReplayFile, secs int) *hangResult {
+	return confirmHangN(ch, opt, idx, rf, secs, 2)
+}
+
+func confirmHangN(ch *Check, opt Options, idx uint64, rf *ReplayFile, secs int, times int) *hangResult {
+	h := &hangResult{idx: idx}
+	exe, err := os.Executable()
+	if err != nil {
+		h.why = "the executable cannot be located: " + err.Error()
+		return h
+	}
+	rp := ""
+	if rf != nil {
+		f, err := os.CreateTemp("", "visim-hang-*.json")
+		if err != nil {
+			h.why = err.Error()
+			return h
+		}
+		b, _ := json.Marshal(rf)
+		f.Write(b)
+		f.Close()
+		rp = f.Name()
+		defer os.Remove(rp)
+	}
+	for k := 0; k < times; k++ {
+		cmd := exec.Command(exe, "hangprobe", ch.ID, opt.Tier, fmt.Sprint(opt.Seed), fmt.Sprint(idx), fmt.Sprint(secs), rp)
+		cmd.Stderr = os.Stderr
+		outb, _ := cmd.Output()
+		code := -1
+		if cmd.ProcessState != nil {
+			code = cmd.ProcessState.ExitCode()
+		}
+		switch code {
+		case 77:
+			var m struct {
+				Tape   []uint64     `json:"tape"`
+				Blocks []tape.Block `json:"blocks"`
+			}
+			if json.Unmarshal(outb, &m) == nil {
+				h.tape, h.blocks = m.Tape, m.Blocks
+			}
+		case 0:
+			h.why = "it ends normally in a fresh process (machine overloaded?)"
+			return h
+		default:
+			h.why = fmt.Sprintf("the probe process failed with exit code %d", code)
+			return h
+		}
+	}
+	h.confirmed = true
+	return h
+}
+
+// probeTape executes a tape in a child process that gives up after secs seconds.
+func probeTape(ch *Check, tier string, vals []uint64, avoid []string, secs int) (used []uint64, blocks []tape.Block, hung bool) {
+	rf := &ReplayFile{Property: ch.ID, Tier: tier, Tape: vals, Avoid: avoid}
+	h := confirmHangN(ch, Options{ID: ch.ID, Tier: tier}, 0, rf, secs, 1)
+	return h.tape, h.blocks, h.confirmed
 }
